@@ -7,7 +7,7 @@ spec  : here — an RFC 9112 de-chunker and the WHATWG event-stream parser, writ
 from .common import hx, unhx
 
 ID = 'C17'
-GEN_DEPS = []
+GEN_DEPS = ['GenSession']
 RULE = ('bursts of up to 1000 messages in one poll (4 % of the cases); every public way to answer with an event stream (DataStream::new over String and over &str, DataStream::from(stream), Response::with_stream(stream)) x producer schedules (0-12 messages over 1-8 polls: bursts before a yield, Pending polls without pushes, completion with a non-empty queue) x messages from a pool of awkward texts '
         '(empty, leading space, LF/CRLF/CR inside and at the end, blank lines, data:/id:/event:/retry: look-alikes, comments, non-ASCII, long) ; non-trivial = at least 2 messages or a message '
         'with a line break or a field look-alike; distinct by canonical JSON')
@@ -35,6 +35,7 @@ def corpus():
         {'case': {'sched': [{'pushes': [hx('a'), hx('b'), hx('c')], 'ready': True}]}},                       # completion with a non-empty queue
         {'case': {'sched': [{'pushes': [], 'ready': False}, {'pushes': [], 'ready': False}, {'pushes': [hx('late')], 'ready': True}]}},
         {'case': {'sched': [{'pushes': [hx('x\ry')], 'ready': True}]}},                                       # was: text after a lone CR parsed as a field
+        {'case': {'timed': True}},                                                                              # was: a stream that outlives the Keep-Alive timeout is cut, no terminating chunk
     ]
 
 
@@ -88,6 +89,11 @@ def norm(m): return m.replace('\r\n', '\n').replace('\r', '\n')
 
 def spec_check(case, out):
     if 'panic' in out: return 'panic: ' + out['panic'][:120]
+    if case.get('timed'):
+        # "at any pace", in real time: the real session loop over loopback TCP with OHKAMI_KEEPALIVE_TIMEOUT=1 and 0.7 s between the three messages
+        st = (out.get('timed') or {}).get('stream')
+        if st is None: return f'the timed scenario did not run: {str(out)[:120]}'
+        return spec_check({'sched': [{'pushes': [hx('a'), hx('b'), hx('c')], 'ready': True}]}, {'wire': st['all']})
     if 'wire' not in out: return f'the response was never finished (the stream stalls): {str(out)[:80]}'
     wire = unhx(out['wire'])
     head, sep, body = wire.partition(b'\r\n\r\n')
@@ -114,18 +120,20 @@ def judge(case, out, m):
     v = []
     bad = spec_check(case, out)
     if bad: v.append(('violation', bad))
-    if m is not None and 'wire' in out:
+    if m is not None and 'wire' in out and not case.get('timed'):
         body = unhx(out['wire']).partition(b'\r\n\r\n')[2].hex()
         if m.get('model', {}).get('body') != body: v.append(('disagree', f'body: impl {body[:160]} model {str(m.get("model", {}).get("body"))[:160]}'))
     return v
 
 
 def nontrivial(case):
+    if case.get('timed'): return True
     msgs = [unhx(p) for s in case['sched'] for p in s['pushes']]
     return len(msgs) >= 2 or any(b'\n' in x or b'\r' in x or b':' in x for x in msgs)
 
 
 def features(case, out):
+    if case.get('timed'): return ['timed']
     n = sum(len(s['pushes']) for s in case['sched'])
     return ['msgs_%s' % ('0' if n == 0 else '1' if n == 1 else '2-4' if n <= 4 else '5+'), 'polls_%d' % len(case['sched']),
             'nonempty_queue_at_completion' if len(case['sched'][-1]['pushes']) > 1 else 'other']
